@@ -764,4 +764,279 @@ theorem wel_spec (H : List UInt8 → Hash) (v : Nat) (pfx : Path) (ek : Key) (ev
       · simp only [hk, if_false] at h; exact general r h
     | kv :: kv2 :: rest, h, _, _, general => simp only [withExistingLeaf] at h; exact general r h
 
+
+/-! ### `batch_insert_at` -/
+
+theorem mem_oldIdx (oldC : Nat → Tree α) (i : Nat) :
+    i ∈ (List.range 16).filter (fun i => !(oldC i).isNull) ↔ i < 16 ∧ (oldC i).isNull = false := by
+  simp [List.mem_filter]
+
+theorem collapse_spec (H : List UInt8 → Hash) (v : Nat) (pfx lp : Path) (S : Key → Option (Val α))
+    (newCs : List (Nat × Tree α)) (oldC : Nat → Tree α) (b : Batch)
+    (hnd : (newCs.map (·.1)).Nodup) (hlt : ∀ x ∈ newCs, x.1 < 16)
+    (hcs : ∀ x ∈ newCs, Rep H (lp ++ [x.1]) S (some x.2))
+    (hold : ∀ n, n < 16 → n ∉ newCs.map (·.1) → Rep H (lp ++ [n]) S (toOpt (oldC n)))
+    (hbase : ∀ k, lp <+: nibbles k → nib k lp.length = none → S k = none) :
+    Rep H lp S (collapse H v pfx lp newCs oldC b).t := by
+  have hrep := childFn_rep H lp S newCs oldC hnd hcs hold
+  have hnew : ∀ x ∈ newCs, childFn newCs oldC x.1 = x.2 := fun x hx => childFn_mem _ _ x.1 x.2 hnd hx
+  have hnewnn : ∀ x ∈ newCs, (childFn newCs oldC x.1).isNull = false := by
+    intro x hx; rw [hnew x hx]; exact (hcs x hx).1
+  have hrebuild : ((∃ i, i < 16 ∧ (childFn newCs oldC i).isNode = true) ∨
+      (∃ i j, i < 16 ∧ j < 16 ∧ i ≠ j ∧ (childFn newCs oldC i).isNull = false ∧
+        (childFn newCs oldC j).isNull = false)) →
+      Rep H lp S (some (mkInternal H v pfx lp newCs oldC).1) :=
+    fun hs => rep_node H lp S _ hrep hbase v hs
+  have hnode_of : ∀ t : Tree α, t.isNull = false → t.isLeaf = false → t.isNode = true := by
+    intro t h1 h2; cases t <;> simp_all [Tree.isNull, Tree.isLeaf, Tree.isNode]
+  -- an old index keeps a non-null child in the merged children
+  have hold_nn : ∀ i, i < 16 → (oldC i).isNull = false → (childFn newCs oldC i).isNull = false := by
+    intro i hi hn
+    by_cases hmem : i ∈ newCs.map (·.1)
+    · obtain ⟨x, hx, hxi⟩ := List.mem_map.mp hmem
+      rw [← hxi]; exact hnewnn x hx
+    · rw [childFn_not_mem _ _ i hmem]; exact hn
+  unfold collapse
+  simp only []
+  generalize hO : (List.range 16).filter (fun i => !(oldC i).isNull) = oldIdx
+  have hmemO : ∀ i, i ∈ oldIdx ↔ i < 16 ∧ (oldC i).isNull = false := by
+    intro i; rw [← hO]; exact mem_oldIdx oldC i
+  have hOnd : oldIdx.Nodup := by rw [← hO]; exact List.Nodup.sublist List.filter_sublist List.nodup_range
+  match newCs, oldIdx, hnd, hlt, hcs, hrep, hnew, hnewnn, hrebuild, hold_nn, hmemO, hOnd with
+  | [], [], _, _, _, hrep, _, _, _, _, hmemO, _ =>
+    simp only []
+    refine rep_none H lp S _ hrep hbase ?_
+    intro i hi
+    rw [childFn_not_mem _ _ i (by simp)]
+    cases hn : (oldC i).isNull with
+    | true => rfl
+    | false => exact absurd ((hmemO i).mpr ⟨hi, hn⟩) (by simp)
+  | [(nn, nt)], [on], _, hlt, hcs, hrep, hnew, hnewnn, hrebuild, hold_nn, hmemO, _ =>
+    simp only []
+    have hnn : nn < 16 := hlt (nn, nt) (by simp)
+    have hMn : childFn [(nn, nt)] oldC nn = nt := hnew (nn, nt) (by simp)
+    have hntnn : nt.isNull = false := (hcs (nn, nt) (by simp)).1
+    have hon := (hmemO on).mp (by simp)
+    by_cases hc : (on = nn && nt.isLeaf) = true
+    · simp only [hc, if_true]
+      simp only [Bool.and_eq_true, decide_eq_true_eq] at hc
+      obtain ⟨hon_eq, hl⟩ := hc
+      cases ht : nt with
+      | null => rw [ht] at hl; simp [Tree.isLeaf] at hl
+      | node => rw [ht] at hl; simp [Tree.isLeaf] at hl
+      | leaf v' lk vh pl s =>
+        refine rep_leaf H lp S _ hrep hbase nn hnn v' v' lk vh pl s (by rw [hMn, ht]) ?_
+        intro i hi hin
+        rw [childFn_not_mem _ _ i (by simpa using hin)]
+        cases hn : (oldC i).isNull with
+        | true => rfl
+        | false =>
+          have := (hmemO i).mpr ⟨hi, hn⟩
+          simp only [List.mem_singleton] at this
+          exact absurd (this.trans hon_eq) hin
+    · simp only [hc]
+      apply hrebuild
+      by_cases hon_eq : on = nn
+      · have hl : nt.isLeaf = false := by
+          cases h : nt.isLeaf with
+          | false => rfl
+          | true => simp [hon_eq, h] at hc
+        exact Or.inl ⟨nn, hnn, by rw [hMn]; exact hnode_of nt hntnn hl⟩
+      · exact Or.inr ⟨nn, on, hnn, hon.1, fun e => hon_eq e.symm, hnewnn (nn, nt) (by simp),
+          hold_nn on hon.1 hon.2⟩
+  | [(nn, nt)], [], _, hlt, hcs, hrep, hnew, _, hrebuild, _, hmemO, _ =>
+    simp only []
+    have hnn : nn < 16 := hlt (nn, nt) (by simp)
+    have hMn : childFn [(nn, nt)] oldC nn = nt := hnew (nn, nt) (by simp)
+    have hntnn : nt.isNull = false := (hcs (nn, nt) (by simp)).1
+    by_cases hl : nt.isLeaf = true
+    · simp only [hl, if_true]
+      cases ht : nt with
+      | null => rw [ht] at hl; simp [Tree.isLeaf] at hl
+      | node => rw [ht] at hl; simp [Tree.isLeaf] at hl
+      | leaf v' lk vh pl s =>
+        refine rep_leaf H lp S _ hrep hbase nn hnn v' v' lk vh pl s (by rw [hMn, ht]) ?_
+        intro i hi hin
+        rw [childFn_not_mem _ _ i (by simpa using hin)]
+        cases hn : (oldC i).isNull with
+        | true => rfl
+        | false => exact absurd ((hmemO i).mpr ⟨hi, hn⟩) (by simp)
+    · simp only [hl]
+      apply hrebuild
+      exact Or.inl ⟨nn, hnn, by rw [hMn]; exact hnode_of nt hntnn (by simpa using hl)⟩
+  | [], [on], _, _, _, hrep, _, _, hrebuild, hold_nn, hmemO, _ =>
+    simp only []
+    have hon := (hmemO on).mp (by simp)
+    have hMo : childFn ([] : List (Nat × Tree α)) oldC on = oldC on := childFn_not_mem _ _ on (by simp)
+    by_cases hl : (oldC on).isLeaf = true
+    · simp only [hl, if_true]
+      cases ht : oldC on with
+      | null => rw [ht] at hl; simp [Tree.isLeaf] at hl
+      | node => rw [ht] at hl; simp [Tree.isLeaf] at hl
+      | leaf v' lk vh pl s =>
+        simp only [Tree.setVer]
+        refine rep_leaf H lp S _ hrep hbase on hon.1 v' v lk vh pl s (by rw [hMo, ht]) ?_
+        intro i hi hin
+        rw [childFn_not_mem _ _ i (by simp)]
+        cases hn : (oldC i).isNull with
+        | true => rfl
+        | false =>
+          have := (hmemO i).mpr ⟨hi, hn⟩
+          simp only [List.mem_singleton] at this
+          exact absurd this hin
+    · simp only [hl]
+      apply hrebuild
+      exact Or.inl ⟨on, hon.1, by rw [hMo]; exact hnode_of _ hon.2 (by simpa using hl)⟩
+  | [], o1 :: o2 :: orest, _, _, _, _, _, _, hrebuild, hold_nn, hmemO, hOnd =>
+    simp only []
+    apply hrebuild
+    have h1 := (hmemO o1).mp (by simp)
+    have h2 := (hmemO o2).mp (by simp)
+    have hne : o1 ≠ o2 := by
+      simp only [List.nodup_cons, List.mem_cons, not_or] at hOnd; exact hOnd.1.1
+    exact Or.inr ⟨o1, o2, h1.1, h2.1, hne, hold_nn o1 h1.1 h1.2, hold_nn o2 h2.1 h2.2⟩
+  | [x], o1 :: o2 :: orest, _, _, _, _, _, _, hrebuild, hold_nn, hmemO, hOnd =>
+    simp only []
+    apply hrebuild
+    have h1 := (hmemO o1).mp (by simp)
+    have h2 := (hmemO o2).mp (by simp)
+    have hne : o1 ≠ o2 := by
+      simp only [List.nodup_cons, List.mem_cons, not_or] at hOnd; exact hOnd.1.1
+    exact Or.inr ⟨o1, o2, h1.1, h2.1, hne, hold_nn o1 h1.1 h1.2, hold_nn o2 h2.1 h2.2⟩
+  | x :: y :: rest, _, hnd, hlt, _, _, _, hnewnn, hrebuild, _, _, _ =>
+    simp only []
+    apply hrebuild
+    have hne : x.1 ≠ y.1 := by
+      simp only [List.map_cons, List.nodup_cons, List.mem_cons, not_or] at hnd; exact hnd.1.1
+    exact Or.inr ⟨x.1, y.1, hlt x (by simp), hlt y (by simp), hne, hnewnn x (by simp), hnewnn y (by simp)⟩
+
+
+theorem rep_self (H : List UInt8 → Hash) (lp : Path) (t : Tree α) (hi : Inv H lp t) :
+    Rep H lp (fun k => getT t k lp.length) (toOpt t) := by
+  unfold toOpt
+  cases t with
+  | null => simp only [Tree.isNull, if_true]; intro k _; rfl
+  | leaf v k vh p s => simp only [Tree.isNull]; exact ⟨rfl, hi, fun _ _ => rfl⟩
+  | node v h c => simp only [Tree.isNull]; exact ⟨rfl, hi, fun _ _ => rfl⟩
+
+theorem getT_node_child (v : Nat) (h : Hash) (c : Nat → Tree α) (lp : Path) (n : Nat) (k : Key)
+    (hk : (lp ++ [n]) <+: nibbles k) :
+    getT (.node v h c) k lp.length = getT (c n) k (lp ++ [n]).length := by
+  simp only [getT, nib_of_prefix lp n k hk, List.length_append, List.length_singleton]
+
+theorem ins_spec (H : List UInt8 → Hash) (v : Nat) (pfx : Path) (fuel : Nat) :
+    ∀ (t : Tree α) (lp : Path) (kvs : List (KV α)) (r : R α),
+    insertAt H v pfx fuel t lp kvs = .ok r → KeysNodup kvs →
+    (∀ kv ∈ kvs, lp <+: nibbles kv.key) → Inv H lp t → t.isNull = false →
+    Rep H lp (over kvs (fun k => getT t k lp.length)) r.t := by
+  intro t
+  induction t with
+  | null => intro lp kvs r _ _ _ _ hn; simp [Tree.isNull] at hn
+  | leaf v' ek evh epl esub =>
+    intro lp kvs r h hnd hpre hinv _
+    simp only [insertAt] at h
+    cases hw : withExistingLeaf H v pfx ek evh epl esub fuel lp kvs with
+    | error e => rw [hw] at h; cases h
+    | ok r' =>
+      rw [hw] at h; simp only at h
+      injection h with h; subst h
+      exact wel_spec H v pfx ek evh epl esub fuel lp kvs r' hw hnd hpre hinv
+  | node v' h' c ih =>
+    intro lp kvs r h hnd hpre hinv _
+    simp only [insertAt] at h
+    cases hg : groups lp.length kvs with
+    | error e => rw [hg] at h; cases h
+    | ok gs =>
+      rw [hg] at h; simp only at h
+      generalize hF : (fun n g =>
+          if (c n).isNull = true then updateSubtree H v pfx fuel (lp ++ [n]) g
+          else insertAt H v pfx fuel (c n) (lp ++ [n]) g) = F at h
+      cases hm : mapGroups F gs with
+      | error e => rw [hm] at h; cases h
+      | ok p =>
+        obtain ⟨rs, b0⟩ := p
+        rw [hm] at h; simp only at h
+        injection h with h; subst h
+        obtain ⟨hall, hgs, hgnd, hgmem⟩ := groups_ok _ _ _ hg
+        obtain ⟨hfst, hfwd, hbwd⟩ := mapGroups_spec F gs rs b0 hm
+        have hsub := someChildren_fst_sublist rs
+        rw [hfst] at hsub
+        -- specification of the recursive call for the group of nibble `n`
+        have hFspec : ∀ n r, n < 16 → F n (grp lp.length kvs n) = .ok r →
+            Rep H (lp ++ [n]) (over kvs (fun k => getT (Tree.node v' h' c) k lp.length)) r.t := by
+          intro n r hn hr
+          subst hF
+          simp only at hr
+          have hnd' := grp_nodup lp.length kvs n hnd
+          have hpre' : ∀ kv ∈ grp lp.length kvs n, (lp ++ [n]) <+: nibbles kv.key := grp_prefix lp kvs n hpre
+          by_cases hcn : (c n).isNull = true
+          · simp only [hcn, if_true] at hr
+            have := upd_spec H v pfx fuel _ _ r hr hnd' hpre'
+            refine Rep_congr H _ _ _ (fun k hk => ?_) _ this
+            rw [over_grp _ kvs n _ k (nib_of_prefix lp n k hk)]
+            apply over_congr_base
+            rw [getT_node_child v' h' c lp n k hk]
+            cases hc : c n with
+            | null => rfl
+            | leaf => rw [hc] at hcn; simp [Tree.isNull] at hcn
+            | node => rw [hc] at hcn; simp [Tree.isNull] at hcn
+          · simp only [hcn] at hr
+            have := ih n (lp ++ [n]) _ r hr hnd' hpre' (hinv.2.1 n) (by simpa using hcn)
+            refine Rep_congr H _ _ _ (fun k hk => ?_) _ this
+            rw [over_grp _ kvs n _ k (nib_of_prefix lp n k hk)]
+            apply over_congr_base
+            rw [getT_node_child v' h' c lp n k hk]
+        apply collapse_spec
+        · exact List.Nodup.sublist hsub hgnd
+        · intro x hx
+          obtain ⟨g, r, hmem, _, _⟩ := hbwd (x.1, some x.2) ((mem_someChildren rs x.1 x.2).mp hx)
+          exact (hgs _ hmem).1
+        · intro x hx
+          obtain ⟨g, r, hmem, hfr, hrt⟩ := hbwd (x.1, some x.2) ((mem_someChildren rs x.1 x.2).mp hx)
+          obtain ⟨hlt, hgeq, _⟩ := hgs _ hmem
+          simp only at hgeq hfr hrt
+          rw [hgeq] at hfr
+          have := hFspec x.1 r hlt hfr
+          rw [hrt] at this; exact this
+        · intro n hn hnot
+          by_cases hgn : n ∈ gs.map (·.1)
+          · obtain ⟨⟨n', g⟩, hmem, hn'⟩ := List.mem_map.mp hgn
+            simp only at hn'; subst hn'
+            obtain ⟨r, hfr, hrs⟩ := hfwd _ hmem
+            obtain ⟨hlt, hgeq, _⟩ := hgs _ hmem
+            simp only at hgeq hfr hrs
+            rw [hgeq] at hfr
+            have hrep := hFspec n' r hlt hfr
+            cases hrt : r.t with
+            | some t =>
+              rw [hrt] at hrs
+              exact absurd (List.mem_map.mpr ⟨(n', t), (mem_someChildren rs n' t).mpr hrs, rfl⟩) hnot
+            | none =>
+              rw [hrt] at hrs hrep
+              have hrem : (rs.any fun r => r.1 == n' && r.2.isNone) = true :=
+                List.any_eq_true.mpr ⟨(n', none), hrs, by simp⟩
+              simp only [hrem, if_true, toOpt, Tree.isNull]
+              exact hrep
+          · have hrem : (rs.any fun r => r.1 == n && r.2.isNone) = false := by
+              rw [List.any_eq_false]
+              intro y hy
+              have : y.1 ∈ gs.map (·.1) := by rw [← hfst]; exact List.mem_map.mpr ⟨y, hy, rfl⟩
+              have hne : y.1 ≠ n := fun e => hgn (e ▸ this)
+              simp [hne]
+            simp only [hrem, Bool.false_eq_true, if_false]
+            have hself := rep_self H (lp ++ [n]) (c n) (hinv.2.1 n)
+            refine Rep_congr H _ _ _ (fun k hk => ?_) _ hself
+            have hkn := nib_of_prefix lp n k hk
+            have hgnil : grp lp.length kvs n = [] := by
+              by_cases hgn' : grp lp.length kvs n = []
+              · exact hgn'
+              · exact absurd (List.mem_map.mpr ⟨_, hgmem n hn hgn', rfl⟩) hgn
+            unfold over
+            rw [find_none_of_grp_nil _ _ n k hkn hgnil]
+            exact (getT_node_child v' h' c lp n k hk).symm
+        · intro k hk hkn
+          unfold over
+          rw [find_none_of_nib_none _ kvs k hall hkn]
+          simp only [getT, hkn]
+
 end Radix.Jmt
